@@ -174,7 +174,9 @@ func c19Sites(r *Result, thorough bool, rng *rand.Rand) {
 		k = 40
 	}
 	for i := 0; i < k; i++ {
+		advNoJoin = true // static validator sets here: the thresholds are the subject, not their changes
 		sc, reached := buildAdversarialScenario(rng, thorough)
+		advNoJoin = false
 		checkOracles(r, sc)
 		measure(r, sc)
 		r.Inc("quorum_site_scenarios", 1)
